@@ -169,7 +169,7 @@ def validate_obs(traces, jobs=8, batch=150, keep_dir=None):
 # ---------------------------------------------------------------------------------------------
 # conformance: TraceImpl (the recorded trace replayed through the actions of Bubus.tla)
 # ---------------------------------------------------------------------------------------------
-_H_OPS = {'d', 'y', 's', 'a', 'rb', 'raise', 'ret', 'g', 'logop'}
+_H_OPS = {'d', 'y', 's', 'a', 'rb', 'raise', 'ret', 'g', 'logop', 'stop'}
 _D_OPS = {'d', 'a', 'y', 's', 'idle', 'g', 'acc', 'stop', 'crl', 'expect', 'on'}
 
 
@@ -181,9 +181,11 @@ def impl_eligible(scn):
         return False
     for sc in scn['scripts'].values():
         for ops in sc.values():
-            for op in ops:
+            for k, op in enumerate(ops):
                 if op[0] not in _H_OPS or (op[0] == 'd' and len(op) > 3 and op[3]):
                     return False
+                if op[0] == 'stop' and any(o[0] in ('a', 'raise', 'stop') for o in ops[k + 1:]):
+                    return False   # after its own stop() a handler may carry a pending cancellation: awaiting / raising then is not modelled
     for ops in scn['drivers']:
         for op in ops:
             if op[0] not in _D_OPS or (op[0] == 'd' and len(op) > 3 and op[3]) or (op[0] == 'idle' and len(op) > 2 and op[2] is not None and op[2] < 1000) \
